@@ -878,6 +878,18 @@ pub fn generate(rng: &mut Rng, thorough: bool, which: &str) -> Vec<Case> {
                     }
                 }
             }
+            // codes that mean something to HTTP/3, QPACK or WebTransport (an application may use them too:
+            // they must travel like any other code), and a few random ones
+            let mut special: Vec<u64> = vec![0x100, 0x101, 0x102, 0x104, 0x10b, 0x10c, 0x110, 0x200, 0x3994bd84, 0x170d7b68, 0x52e4a40fa8db];
+            for _ in 0..3 {
+                special.push(rng.varint());
+            }
+            for op in [1u64, 2, 3, 4] {
+                for (i, c) in special.iter().enumerate() {
+                    if !thorough && (i as u64 + op) % 2 == 1 && *c != 0x100 { continue; }
+                    cs.push(Case::new(641, vec![vec![op, *c, 1000]], "signal-protocol-code"));
+                }
+            }
             for nb in [0usize, 1, 5000, 60000] {
                 cs.push(Case::new(641, vec![vec![5, 0, nb as u64]], "finish"));
             }
